@@ -32,10 +32,12 @@ class FaultSchedule(object):
         self.failed = True
         conn = getattr(self, "conn", None)
         self.was_buffered = bool(conn is not None and conn.sock.buffer_writes)
-        if self.kind == "alert-epipe":
+        if self.kind in ("alert-epipe", "alert-epipe-late"):
             # the peer said why it is leaving (fatal handshake_failure, unprotected) before it closed
             sock.rx.buf += bytes([21, 3, 3, 0, 2, 2, 40])
             sock.rx.eof = True
+            # "late": the alert is still on its way when the write fails - the next `late` reads would block
+            self.late = 2 if self.kind == "alert-epipe-late" else 0
 
     def _dead_recv(self):
         if self.kind == "eof":
@@ -63,7 +65,10 @@ class FaultSchedule(object):
             return None
         if self.failed and self.kind == "alert":
             return None
-        if self.failed and self.kind == "alert-epipe":
+        if self.failed and self.kind in ("alert-epipe", "alert-epipe-late"):
+            if getattr(self, "late", 0) > 0:
+                self.late -= 1
+                return ("wb",)
             return None            # what is buffered is delivered, then EOF
         if self.failed:
             return self._dead_recv()
@@ -173,9 +178,9 @@ def hs_fault(job):
         cgen, sgen = sc.gens()
         st, co, so = p.run(cgen, sgen, max_steps=50000)
         out = co if role == "c" else so
-        envname = {"eof": "eof", "reset": "reset", "epipe": "epipe", "alert-epipe": "fatalsend", "alert": "fatal"}[kind]
+        envname = {"eof": "eof", "reset": "reset", "epipe": "epipe", "alert-epipe": "fatalsend", "alert-epipe-late": "fatalsend", "alert": "fatal"}[kind]
         ev = [{"ev": "CFG", "closeSocket": bool(opts[0]), "ignoreAbrupt": bool(opts[1])}]
-        ev.append(call_event("handshake", envname, out, victim, wantdesc=40 if kind in ("alert-epipe", "alert") else 0))
+        ev.append(call_event("handshake", envname, out, victim, wantdesc=40 if kind in ("alert-epipe", "alert-epipe-late", "alert") else 0))
         ev[-1]["buffered"] = bool(getattr(vs.schedule, "was_buffered", False))
         # afterwards: reads return empty, writes raise the closed-connection error
         o = p.op(role, _read_gen(victim, None, 1), max_steps=2000)
@@ -670,6 +675,13 @@ def run(tier):
             # server must surface that alert, not a bare socket error
             for at in range(1, nfirst + 1):
                 jobs.append((i, f, role, "send", at, "alert-epipe", (True, False)))
+                # ... also when the alert becomes readable only after the socket said "would block" (C14: the result
+                # does not depend on how the transport delays)
+                jobs.append((i, f, role, "send", at, "alert-epipe-late", (True, False)))
+        else:
+            # the server turned the connection down (alert, close) before it read the ClientHello
+            jobs.append((i, f, role, "send", 1, "alert-epipe", (True, False)))
+            jobs.append((i, f, role, "send", 1, "alert-epipe-late", (True, False)))
     with Pool(16) as pool:
         res1 = pool.map(hs_fault, jobs, chunksize=8)
     djobs = []
